@@ -20,7 +20,7 @@ import (
 )
 
 type Step struct {
-	Ident   int  // index into the fixed identities (one per pool key: 2048/3072/4096 bits)
+	Ident   int  // index into the fixed identities (one per pool key: 2048/3072/4096 bits); 8 = the case's generated identity
 	Reparse bool // serialise and re-parse the image before this signature
 }
 
@@ -30,6 +30,8 @@ type Case struct {
 	Steps     []Step
 	Outsider  int  // identity that never signs
 	FinalPass bool // re-parse once more at the end before the final verification round
+	ExtraKey  int    // a generated identity (name, serial and issuer vary, so signature blob lengths cover every value mod 8)
+	ExtraCert hx.Hex
 }
 
 var fixtureImages = []string{
@@ -63,12 +65,17 @@ func genCase(t *rapid.T) Case {
 		o.Table = false
 		c.Img, c.Source = gen.PEImage(o).Draw(t, "img"), "generated"
 	}
+	extra := gen.Ident(true).Draw(t, "extra_identity")
+	c.ExtraKey, c.ExtraCert = extra.Key, extra.Cert.Raw
 	n := rapid.SampledFrom([]int{1, 1, 2, 2, 3, 4}).Draw(t, "nsig")
 	used := map[int]bool{}
 	for i := 0; i < n; i++ {
 		id := rapid.SampledFrom([]int{0, 1, 2, 3, 0, 1, 2, 3, 4, 6}).Draw(t, "ident")
 		if hx.Thorough() {
 			id = rapid.IntRange(0, 7).Draw(t, "ident2")
+		}
+		if rapid.IntRange(0, 2).Draw(t, "use_generated_identity") == 0 {
+			id = 8
 		}
 		used[id] = true
 		c.Steps = append(c.Steps, Step{Ident: id, Reparse: i > 0 && rapid.Bool().Draw(t, "reparse")})
@@ -86,7 +93,12 @@ func genCase(t *rapid.T) Case {
 func libDigest(p *authenticode.PECOFFBinary) []byte { return p.Hash(crypto.SHA256) }
 
 func checkCase(c Case) error {
-	ids := gen.FixedIdents()
+	ids := append([]gen.Identity{}, gen.FixedIdents()...)
+	extra, err := gen.ParseIdent(c.ExtraKey, c.ExtraCert)
+	if err != nil {
+		return fmt.Errorf("bad case: %v", err)
+	}
+	ids = append(ids, extra)
 	orig := []byte(c.Img)
 	l0, err := pehash.Parse(orig)
 	if err != nil {
@@ -129,6 +141,9 @@ func checkCase(c Case) error {
 	reparsed := false
 	for i, st := range c.Steps {
 		id := ids[st.Ident%len(ids)]
+		if id.Cert.Issuer.String() != id.Cert.Subject.String() {
+			hx.Class("signer_certificate_issued_by_a_ca")
+		}
 		if st.Reparse {
 			bin, err = authenticode.Parse(bytes.NewReader(prev))
 			if err != nil {
@@ -245,7 +260,7 @@ func checkCase(c Case) error {
 					return fmt.Errorf("%s: reference firmware-style verification rejects signer %d: %s", step, k, why)
 				}
 			}
-			outsider := ids[c.Outsider%len(ids)].Cert
+			outsider := ids[c.Outsider%8].Cert
 			if ok, err := view.Verify(outsider); ok && err == nil {
 				return fmt.Errorf("%s (pass %d): Verify succeeds for a certificate that never signed", step, pass)
 			}
